@@ -190,3 +190,42 @@ void h_C09_snarf_rrule(void)
 	if (v0 == 0 && v1 == 24 && v2 == 60) { SENTINEL("snarf_rrule edge values"); }
 	SENTINEL("snarf_rrule");
 }
+
+/* ---- C17: snarf_shift, the text form of SHIFT -> the encoding shift() decodes ----
+ * layouts: "<n>" (days), "<n>B" (business days) with the number's VALUE
+ * symbolic; the number's text begins with '-' exactly when the harness says so
+ * (for the value 0 both spellings exist: 0B and -0B). */
+#if !defined REPLAY
+void h_C17_snarf_shift(void)
+{
+	IN_RANGE(long, n, -366, 366);
+	IN_BOOL(minus);		/* the text starts with '-' */
+	IN_BOOL(bday);
+	ASSUME((n < 0) ? minus : (n > 0 ? !minus : 1));
+	g_num[0] = n, g_nnum = 0U;
+	echs_shift_t sh;
+	/* one call per concrete layout */
+	if (bday && minus) {
+		sh = snarf_shift("-1B");
+	} else if (bday) {
+		sh = snarf_shift("1B");
+	} else if (minus) {
+		sh = snarf_shift("-1");
+	} else {
+		sh = snarf_shift("1");
+	}
+	ASSERT(g_nnum == 1U, "one number read");
+	if (!bday) {
+		ASSERT(echs_shift_dvalue(sh) == (int)n && !echs_shift_bday_p(sh), "SHIFT=N: N calendar days, no business-day part");
+		SENTINEL("snarf_shift days");
+	} else {
+		ASSERT(echs_shift_dvalue(sh) == 0, "SHIFT=NB: no calendar-day part");
+		ASSERT(echs_shift_bday_p(sh), "SHIFT=NB (0B and -0B included) is a business-day shift");
+		ASSERT(echs_shift_bvalue(sh) == (int)n, "SHIFT=NB: N business days, signed");
+		ASSERT(echs_shift_neg_p(sh) == (bool)minus, "SHIFT=NB: the direction is the sign as written, also for -0B");
+		if (n == 0 && minus) { SENTINEL("snarf_shift -0B"); }
+		SENTINEL("snarf_shift business days");
+	}
+	SENTINEL("snarf_shift");
+}
+#endif
